@@ -711,3 +711,92 @@ func checkStepMeasure(c *core.Ctx) {
 		c.Fail("C07.R9", cons, "accumulation", fd.Pos(), "no quantity reads the previous iterate: the stopping rule cannot measure the step")
 	}
 }
+
+// C07.R10 — constraints of the line search. The bracketing phase doubles the step between evaluations, so the user's
+// constraint has to be consulted in every iteration: each evaluation f(alpha) inside the bracketing loop is preceded,
+// in the same iteration, by a test `constraints(alpha)` of the same step variable (the loop that halves the step until
+// it is admissible). A test hoisted out of the loop covers the first step only.
+func checkLineSearchConstraints(c *core.Ctx) {
+	c.Rule("C07.R10", "line search: every evaluation of a trial step inside the bracketing loop is preceded in the same iteration by the constraint test of that step", 1)
+	p := c.Pkg("algorithm/lineSearch")
+	if p == nil {
+		c.Unknown("C07.R10", "algorithm/lineSearch", "package loaded", token.NoPos, "not loaded")
+		return
+	}
+	info := p.TypesInfo
+	fd := findFuncDecl(p, "lineSearch")
+	cons := "algorithm/lineSearch.lineSearch"
+	if fd == nil {
+		c.Unknown("C07.R10", cons, "present", token.NoPos, "not found")
+		return
+	}
+	// parameters of function type: the objective (three results) and the constraint (bool result)
+	var objective, constraint types.Object
+	for _, f := range fd.Type.Params.List {
+		for _, n := range f.Names {
+			o := info.Defs[n]
+			if sig, ok := o.Type().Underlying().(*types.Signature); ok {
+				switch {
+				case sig.Results().Len() == 3:
+					objective = o
+				case sig.Results().Len() == 1:
+					if b, ok := sig.Results().At(0).Type().Underlying().(*types.Basic); ok && b.Kind() == types.Bool {
+						constraint = o
+					}
+				}
+			}
+		}
+	}
+	if objective == nil || constraint == nil {
+		c.Unknown("C07.R10", cons, "objective and constraint parameters", fd.Pos(), "not found")
+		return
+	}
+	n := 0
+	ast.Inspect(fd.Body, func(nd ast.Node) bool {
+		loop, ok := nd.(*ast.ForStmt)
+		if !ok {
+			return true
+		}
+		for i, st := range loop.Body.List {
+			// a statement (not a nested loop) that evaluates the objective
+			if _, isLoop := st.(*ast.ForStmt); isLoop {
+				continue
+			}
+			var arg types.Object
+			var pos token.Pos
+			ast.Inspect(st, func(m ast.Node) bool {
+				if ce, ok := m.(*ast.CallExpr); ok && len(ce.Args) == 1 {
+					if id, ok := ast.Unparen(ce.Fun).(*ast.Ident); ok && info.Uses[id] == objective {
+						if a, ok := ast.Unparen(ce.Args[0]).(*ast.Ident); ok {
+							arg, pos = info.Uses[a], ce.Pos()
+						}
+					}
+				}
+				return true
+			})
+			if arg == nil {
+				continue
+			}
+			n++
+			tested := false
+			for _, prev := range loop.Body.List[:i] {
+				ast.Inspect(prev, func(m ast.Node) bool {
+					if ce, ok := m.(*ast.CallExpr); ok && len(ce.Args) == 1 {
+						if id, ok := ast.Unparen(ce.Fun).(*ast.Ident); ok && info.Uses[id] == constraint {
+							if a, ok := ast.Unparen(ce.Args[0]).(*ast.Ident); ok && info.Uses[a] == arg {
+								tested = true
+							}
+						}
+					}
+					return true
+				})
+			}
+			c.Check(tested, "C07.R10", cons, "trial step tested against the constraints before it is evaluated", pos,
+				"the bracketing loop evaluates the objective at "+arg.Name()+" without testing the constraints on it in the same iteration: enlarged steps are never checked and an inadmissible step can be returned with a nil error")
+		}
+		return true
+	})
+	if n == 0 {
+		c.Unknown("C07.R10", cons, "evaluation inside the bracketing loop", fd.Pos(), "no evaluation of the objective inside a loop found")
+	}
+}
